@@ -31,7 +31,11 @@ def load_source(repo, sig):
 def translate(sigpath, repo):
     sig = json.load(open(sigpath))
     path, text = load_source(repo, sig)
-    m = Module(sigpath, text, os.path.basename(sig['source']))
+    if sig.get('mode') == 'str':        # string-mode targets (tools/py2v/strmode.py); the other targets never get here
+        from strmode import StrModule
+        m = StrModule(sigpath, text, os.path.basename(sig['source']))
+    else:
+        m = Module(sigpath, text, os.path.basename(sig['source']))
     out = m.translate()
     return sig, out, hashlib.sha256(open(path, 'rb').read()).hexdigest()
 
